@@ -6,6 +6,8 @@ package main
 // of xflate.Writer/Reader are compared in families xw/xr.
 
 import (
+	"bufio"
+	"reflect"
 	"bytes"
 	stdbz "compress/bzip2"
 	stdflate "compress/flate"
@@ -42,6 +44,22 @@ func newReaderOf(typ string, src io.Reader, data []byte) (anyReader, error) {
 		return xflate.NewReader(bytes.NewReader(data), nil)
 	}
 	panic(typ)
+}
+
+// inputOffsetOf reads the exported InputOffset field of any of the Reader types (0 if absent).
+func inputOffsetOf(r anyReader) int64 {
+	v := reflect.ValueOf(r)
+	if v.Kind() == reflect.Ptr {
+		v = v.Elem()
+	}
+	if v.Kind() != reflect.Struct {
+		return 0
+	}
+	f := v.FieldByName("InputOffset")
+	if !f.IsValid() || !f.CanInt() {
+		return 0
+	}
+	return f.Int()
 }
 
 func resetReader(typ string, r anyReader, src io.Reader, data []byte) error {
@@ -114,6 +132,29 @@ func (f *failSeeker) Read(b []byte) (int, error) {
 }
 func (f *failSeeker) Seek(off int64, wh int) (int64, error) { return f.rd.Seek(off, wh) }
 
+// fragSeeker delivers at most frags[i] bytes on its i-th Read (cyclically); with eofWith it returns
+// io.EOF together with the last bytes.
+type fragSeeker struct {
+	rd      *bytes.Reader
+	frags   []int
+	i       int
+	eofWith bool
+}
+
+func (f *fragSeeker) Read(p []byte) (int, error) {
+	k := f.frags[f.i%len(f.frags)]
+	f.i++
+	if k < len(p) {
+		p = p[:k]
+	}
+	n, err := f.rd.Read(p)
+	if err == nil && f.eofWith && f.rd.Len() == 0 {
+		err = io.EOF
+	}
+	return n, err
+}
+func (f *fragSeeker) Seek(off int64, wh int) (int64, error) { return f.rd.Seek(off, wh) }
+
 func execLife(o *Out, id, line string) {
 	kind, kv := parseLine(line)
 	switch kind {
@@ -135,7 +176,8 @@ func execLife(o *Out, id, line string) {
 		mk := func(d []byte) io.Reader { return mkSource(srcKind, d, fail, etag, nil, []int{3, 1, 5}) }
 		var rd anyReader
 		var err error
-		_, p := catch(func() { rd, err = newReaderOf(typ, mk(data), data) })
+		curSrc := mk(data)
+		_, p := catch(func() { rd, err = newReaderOf(typ, curSrc, data) })
 		if p != nil {
 			o.Violate("C18", fmt.Sprintf("%s NewReader panicked: %v", typ, p), "panic-new", line)
 			return
@@ -237,12 +279,76 @@ func execLife(o *Out, id, line string) {
 				cur, _ = strconv.Atoi(f[1])
 				data = unhx(streams[cur])
 				var e error
-				_, p := catch(func() { e = resetReader(typ, rd, mk(data), data) })
+				curSrc = mk(data)
+				_, p := catch(func() { e = resetReader(typ, rd, curSrc, data) })
 				if p != nil {
 					o.Violate("C18", fmt.Sprintf("%s.Reset panicked: %v", typ, p), "panic-reset", line)
 					return
 				}
 				trace = append(trace, "Z="+errClass(e))
+				sticky, closedOK, sawEOF, delivered, closeCalled = false, false, false, nil, false
+				if e != nil {
+					rd = nil
+				}
+			case "Y", "X":
+				// Y:i:k - Reset onto a NEW source of the same kind that stands at a non-zero offset q
+				//         (q junk bytes already consumed), q near the old reader's InputOffset or small:
+				//         look-ahead state kept for the previous source must not be served for this one
+				// X:i   - the SAME source object, re-targeted by its own Reset(newData), is handed to Reset
+				cur, _ = strconv.Atoi(f[1])
+				data = unhx(streams[cur])
+				ns := mk(data)
+				if f[0] == "Y" && typ != "xflate" {
+					k, _ := strconv.Atoi(f[2])
+					c := inputOffsetOf(rd)
+					qs := []int64{c, c + 1, c + 5, 0, 7, 64, 200, c + 100}
+					q := qs[k%len(qs)]
+					full := make([]byte, q, int(q)+len(data))
+					for i := range full {
+						full[i] = byte(0xa5 + 13*i)
+					}
+					full = append(full, data...)
+					switch srcKind {
+					case "bytes":
+						br := bytes.NewReader(full)
+						br.Seek(q, io.SeekStart)
+						ns = br
+					case "strings":
+						sr := strings.NewReader(string(full))
+						sr.Seek(q, io.SeekStart)
+						ns = sr
+					case "bufio16", "bufio4096":
+						b := bufio.NewReaderSize(bytes.NewReader(full), map[string]int{"bufio16": 16, "bufio4096": 4096}[srcKind])
+						b.Discard(int(q))
+						ns = b
+					case "buffer":
+						bb := bytes.NewBuffer(full)
+						bb.Next(int(q))
+						ns = bb
+					}
+				}
+				if f[0] == "X" {
+					switch x := curSrc.(type) {
+					case *bytes.Reader:
+						x.Reset(data)
+						ns = x
+					case *strings.Reader:
+						x.Reset(string(data))
+						ns = x
+					case *bytes.Buffer:
+						x.Reset()
+						x.Write(data)
+						ns = x
+					}
+				}
+				curSrc = ns
+				var e error
+				_, p := catch(func() { e = resetReader(typ, rd, curSrc, data) })
+				if p != nil {
+					o.Violate("C18", fmt.Sprintf("%s.Reset panicked: %v", typ, p), "panic-reset", line)
+					return
+				}
+				trace = append(trace, f[0]+"="+errClass(e))
 				sticky, closedOK, sawEOF, delivered, closeCalled = false, false, false, nil, false
 				if e != nil {
 					rd = nil
@@ -280,6 +386,50 @@ func execLife(o *Out, id, line string) {
 		}
 		o.Count("lr-" + typ)
 		o.Emit(id, line, "", strings.Join(trace, "|"), typ+kv["ops"]+kv["streams"][:min(len(kv["streams"]), 40)]+kv["fail"])
+	case "lxf": // xflate.Reader over a ReadSeeker that fragments its data (C10): same result as over bytes.Reader
+		data := unhx(kv["stream"])
+		var frags []int
+		for _, f := range strings.Split(kv["frags"], ",") {
+			n, _ := strconv.Atoi(f)
+			frags = append(frags, n)
+		}
+		run := func(src io.ReadSeeker, bufLen int) (out []byte, openErr, readErr error, pnc interface{}) {
+			_, pnc = catch(func() {
+				var xr *xflate.Reader
+				xr, openErr = xflate.NewReader(src, nil)
+				if openErr != nil {
+					return
+				}
+				buf := make([]byte, bufLen)
+				for i := 0; i < 1<<22; i++ {
+					n, e := xr.Read(buf)
+					out = append(out, buf[:n]...)
+					if e != nil {
+						readErr = e
+						return
+					}
+				}
+				readErr = fmt.Errorf("no progress")
+			})
+			return
+		}
+		wOut, wOpen, wRead, _ := run(bytes.NewReader(data), 4096)
+		bufLen, _ := strconv.Atoi(kv["buf"])
+		gOut, gOpen, gRead, pnc := run(&fragSeeker{rd: bytes.NewReader(data), frags: frags, eofWith: kv["eofwith"] == "1"}, bufLen)
+		if pnc != nil {
+			o.Violate("C08", fmt.Sprintf("xflate.Reader over a fragmenting source panicked: %v", pnc), "lxf-panic", line)
+			return
+		}
+		res := fmt.Sprintf("open=%s read=%s n=%d", errClass(gOpen), errClass(gRead), len(gOut))
+		if errClass(gOpen) != errClass(wOpen) || errClass(gRead) != errClass(wRead) || !bytes.Equal(gOut, wOut) {
+			o.Violate("C10", fmt.Sprintf("xflate.Reader over a source delivering %v bytes per Read (eofWith=%s, Read buffer %d): %s; over bytes.Reader: open=%s read=%s n=%d",
+				frags, kv["eofwith"], bufLen, res, errClass(wOpen), errClass(wRead), len(wOut)), "xflate-source-shape", line)
+		}
+		if want, ok := kv["plain"]; ok && wRead == io.EOF && !bytes.Equal(wOut, unhx(want)) {
+			o.Violate("C05", "xflate.Reader does not return the plaintext", "lxf-plain", line)
+		}
+		o.Count("lxf")
+		o.Emit(id, line, "", res, "lxf"+kv["frags"]+kv["eofwith"]+kv["buf"]+kv["stream"][:min(len(kv["stream"]), 32)])
 	case "lxs": // xflate.Reader over a ReadSeeker whose Read starts failing after a number of calls
 		data := unhx(kv["stream"])
 		okCalls, _ := strconv.Atoi(kv["okcalls"])
@@ -603,6 +753,27 @@ func genLife(r *Rand, tier string, emit func(string)) {
 			}
 		}
 	}
+	// Reset onto sources that stand at a non-zero offset / onto the same re-targeted source object,
+	// after the previous stream was abandoned early, failed in its first bytes, or was read to the end
+	for _, t := range readerTypes {
+		if t == "xflate" {
+			continue
+		}
+		p := pools[t]
+		for _, src := range []string{"bytes", "strings", "bufio16", "buffer"} {
+			for i := range p.streams {
+				for j := range p.streams {
+					for _, pre := range []string{"", "R:1|", "R:7|", "A|", "R:1|C|"} {
+						k := r.Intn(8)
+						emit(fmt.Sprintf("lr t=%s src=%s fail=- streams=%s plains=%s ops=Z:%d|%sY:%d:%d|A", t, src, strings.Join(p.streams, ","), strings.Join(p.plains, ","), i, pre, j, k))
+						if src != "bufio16" && r.Intn(2) == 0 {
+							emit(fmt.Sprintf("lr t=%s src=%s fail=- streams=%s plains=%s ops=Z:%d|%sX:%d|A", t, src, strings.Join(p.streams, ","), strings.Join(p.plains, ","), i, pre, j))
+						}
+					}
+				}
+			}
+		}
+	}
 	ropAlpha := []string{"R:0", "R:1", "R:7", "R:100000", "C", "A"}
 	depth := 3
 	if thorough {
@@ -643,6 +814,48 @@ func genLife(r *Rand, tier string, emit func(string)) {
 				if r.Intn(4) == 0 {
 					// the source fails with an error this package also uses as its closed marker
 					emit(fmt.Sprintf("lr t=%s src=%s fail=%d etag=%d streams=%s plains=%s ops=R:100000|R:1|C|C", t, src, k, closedTag(t), p.streams[0], p.plains[0]))
+				}
+			}
+		}
+	}
+	// xflate.Reader over ReadSeekers that fragment their data: pool streams and streams with several
+	// chunks and indexes, at several fragment patterns and Read buffer lengths
+	{
+		p := pools["xflate"]
+		var streams, plains []string
+		for i := range p.streams {
+			streams = append(streams, p.streams[i])
+			pl := "?"
+			if i < len(p.plains) {
+				pl = p.plains[i]
+			}
+			plains = append(plains, pl)
+		}
+		for i := 0; i < 6; i++ {
+			plain := r.Bytes(200 + r.Intn(6000))
+			if i%2 == 0 {
+				for j := range plain {
+					plain[j] = "abcdefgh"[int(plain[j])%8]
+				}
+			}
+			var bb bytes.Buffer
+			xw, _ := xflate.NewWriter(&bb, &xflate.WriterConfig{Level: []int{-1, 0, 6}[i%3], ChunkSize: int64(64 + r.Intn(900)), IndexSize: int64(1 + r.Intn(4))})
+			xw.Write(plain[:len(plain)/2])
+			xw.Flush(xflate.FlushMode(1 + i%3))
+			xw.Write(plain[len(plain)/2:])
+			xw.Close()
+			streams = append(streams, hx(bb.Bytes()))
+			plains = append(plains, hx(plain))
+		}
+		for i, st := range streams {
+			for _, fr := range []string{"1", "2", "3", "1,2,3,5", "7,1,4096", "4095", "5,3"} {
+				for _, ew := range []string{"0", "1"} {
+					buf := []int{1, 7, 4096}[r.Intn(3)]
+					line := fmt.Sprintf("lxf frags=%s eofwith=%s buf=%d stream=%s", fr, ew, buf, st)
+					if plains[i] != "?" {
+						line += " plain=" + plains[i]
+					}
+					emit(line)
 				}
 			}
 		}
